@@ -222,3 +222,8 @@ Proof. rewrite !nsec3_hash_rfc5155, canon_idem. reflexivity. Qed.
 Theorem nsec3_hash_case_insensitive H a b iterations salt : name_eqb a b = true ->
   nsec3_hash H a iterations salt = nsec3_hash H b iterations salt.
 Proof. intros E. apply name_eqb_spec in E. rewrite !nsec3_hash_rfc5155, E. reflexivity. Qed.
+
+Theorem nsec3_hash_canonical_both H a b iterations salt :
+  nsec3_hash H a iterations salt = nsec3_hash H (canon a) iterations salt /\
+  (name_eqb a b = true -> nsec3_hash H a iterations salt = nsec3_hash H b iterations salt).
+Proof. split; [apply nsec3_hash_canonical|apply nsec3_hash_case_insensitive]. Qed.
